@@ -204,7 +204,7 @@ func (c *Conn) deliver(cmd redcon.Command) error {
 	if bad {
 		return &net.OpError{Op: "write", Net: "sim", Err: ErrRefused}
 	}
-	started := sched.PeekNS()
+	started, stalled0 := sched.PeekNS(), sched.StallNS()
 	t.VerifServe(c.srv, cmd)
 	if c.srv.detached == nil {
 		c.srv.flushTo(c)
@@ -213,7 +213,9 @@ func (c *Conn) deliver(cmd redcon.Command) error {
 	// config.DefaultReadTimeout) while the member goes on handling the command. Inline delivery
 	// has no clock of its own, so the virtual time the handler took stands in for it: a command
 	// that kept its handler busy for longer than the timeout has taken effect, its reply is lost.
-	if !hs && c.srv.detached == nil && sched.PeekNS()-started > ReadTimeoutNS {
+	// Time during which the explorer held a runnable thread (sched.StallNS) does not count: only the
+	// command's own waiting does.
+	if !hs && c.srv.detached == nil && (sched.PeekNS()-started)-(sched.StallNS()-stalled0) > ReadTimeoutNS {
 		c.out = nil
 		return &net.OpError{Op: "read", Net: "sim", Err: timeoutErr{}}
 	}
